@@ -79,18 +79,33 @@ def r18a(ctx):
             v = a.arg(w, 0)
             okv = a.root_call(v) is not None and sg(a.root_call(v)[1]) == ty + 'deserialize' and v[0] == 'call'
             ctx.check(okv, 'R18a', fn, ty.split('::')[-2] + '.asread', a.loc(w), '%s is serialised exactly as deserialised (xorb / file hashes kept)' % ty.split('::')[-2])
+    # values given to a footer field: by field stores into the footer, or as a component of one footer literal
+    # (`MDBShardFileFooter { f: v, ..Default::default() }`); a value chosen by if/else is expanded into its alternatives
+    def footer_values(fld):
+        out = [(b_, si_, a.flow.rvalue(st_['r'], 0)) for (b_, si_, st_) in a.stores_to_field(fld)]
+        if out:
+            return out
+        for b_ in sorted(a.cfg.reach0):
+            for si_, st_ in enumerate(a.blocks[b_]['s']):
+                r_ = st_.get('r')
+                if r_ and r_['k'] == 'agg' and (r_.get('adt') or '').endswith('MDBShardFileFooter'):
+                    comp = dict(a.flow.rvalue(r_, 0)[3]).get(fld)
+                    if comp is not None and not (comp[0] == 'field' and comp[2] == fld):
+                        for (sb, ssi, se) in a.flow.sources(comp, (b_, si_)):
+                            out.append((sb if sb is not None else b_, ssi if sb is not None else si_, se))
+        return out
     # footer key
-    ks = a.stores_to_field('chunk_hash_hmac_key')
-    ctx.check(len(ks) == 1 and a.flow.rvalue(ks[0][2]['r'], 0) == ('param', 3, 'hmac_key'), 'R18a', fn, 'footer.key', a.loc(ks[0][0], ks[0][1]) if ks else '-', 'the footer records the export key')
+    ks = footer_values('chunk_hash_hmac_key')
+    ctx.check(len(ks) == 1 and ks[0][2][0] == 'param' and ks[0][2][1] == 3, 'R18a', fn, 'footer.key', a.loc(ks[0][0], ks[0][1]) if ks else '-', 'the footer records the export key')
     # tables under flags
     wr64 = a.calls('utils::serialization_utils::write_u64')
     for flag, cnt_field in (('include_file_info', 'file_lookup_num_entry'), ('include_cas_lookup_table', 'cas_lookup_num_entry'), ('include_chunk_lookup_table', 'chunk_lookup_num_entry')):
         pidx = [i for i, l in enumerate(a.body['locals']) if l.get('n') == flag and 1 <= i <= a.body['argc']]
         te, fe = bool_edges(a, lambda e: e == ('param', pidx[0], flag)) if pidx else ([], [])
-        sts = a.stores_to_field(cnt_field)
+        sts = footer_values(cnt_field)
         okc = len(sts) == 2
         if okc:
-            vals = [(a.flow.rvalue(s_[2]['r'], 0), s_[0]) for s_ in sts]
+            vals = [(s_[2], s_[0]) for s_ in sts]
             lens = [(v, b) for (v, b) in vals if v[0] == 'call' and sg(v[1]).endswith('Vec::len')]
             zeros = [(v, b) for (v, b) in vals if v == ('const', 0, 'u64')]
             okc = len(lens) == 1 and len(zeros) == 1 and a.cfg.must_pass(lens[0][1], via_edges=te) and a.cfg.must_pass(zeros[0][1], via_edges=fe)
@@ -107,8 +122,8 @@ def r18a(ctx):
     ctx.check(bool(ss_) and bool(ws) and all(a.cfg.must_pass(w, via_blocks=ss_) for w in ws), 'R18a', fn, 'chunk table sorted', a.loc(ss_[0]) if ss_ else '-', 'the rebuilt (keyed) chunk table is sorted before it is written',
               'the keyed chunk lookup table can be written unsorted')
     # expiry
-    es = a.stores_to_field('shard_key_expiry')
-    ok = len(es) == 1 and flow.mentions(a.flow.rvalue(es[0][2]['r'], 0), lambda z: z == ('param', 4, 'key_valid_for')) and flow.mentions(a.flow.rvalue(es[0][2]['r'], 0), lambda z: z[0] == 'call' and sg(z[1]).endswith('SystemTime::now'))
+    es = footer_values('shard_key_expiry')
+    ok = len(es) == 1 and flow.mentions(es[0][2], lambda z: z[0] == 'param' and z[1] == 4) and flow.mentions(es[0][2], lambda z: z[0] == 'call' and sg(z[1]).endswith('SystemTime::now'))
     ctx.check(ok, 'R18a', fn, 'expiry', a.loc(es[0][0], es[0][1]) if es else '-', 'shard_key_expiry derives from now + key_valid_for')
     ex = an(ctx.F.body('mdb_shard::shard_file_handle::MDBShardFile::export_with_expiration'))
     es = ex.stores_to_field('shard_key_expiry')
@@ -122,22 +137,45 @@ def r18b(ctx):
     c05.r05c(_Alias(ctx, 'R05c', 'R18b'))
     # register_shards files a shard under its footer key
     a = an(ctx.F.body('mdb_shard::shard_file_manager::ShardFileManager::register_shards::{closure#0}'))
-    ent = [e for e in a.calls('std::collections::hash::map::HashMap::entry') if flow.mentions(a.arg(e, 0), lambda z: z[0] == 'field' and z[2] == 'collection_by_key')]
-    ok = len(ent) == 1 and flow.mentions(a.arg(ent[0], 1), lambda z: z[0] == 'field' and z[2] == 'chunk_hash_hmac_key')
-    ctx.check(ok, 'R18b', a.path, 'collection key', a.loc(ent[0]) if ent else '-', 'a registered shard is filed under the collection of its footer\'s chunk_hash_hmac_key')
-    # the index recorded for a new key is the collection count read in the same iteration as the push that creates it
-    ins = [c for c in a.calls('std::collections::hash::map::Entry::or_insert') if ent and a.rooted_at(a.arg(c, 0), ent[0])]
+    is_cbk = lambda z: flow.mentions(z, lambda y: y[0] == 'field' and y[2] == 'collection_by_key')
+    is_key = lambda z: flow.mentions(z, lambda y: y[0] == 'field' and y[2] == 'chunk_hash_hmac_key')
+    ent = [e for e in a.calls('std::collections::hash::map::HashMap::entry') if is_cbk(a.arg(e, 0))]
     pushes = [p for p in a.calls('alloc::vec::Vec::push') if a.arg(p, 0)[0] == 'field' and a.arg(p, 0)[2] == 'shard_collections']
-    okf = len(ins) == 1 and len(pushes) == 1
-    if okf:
-        v = a.arg(ins[0], 1)
-        lc = a.root_call(v)
-        lp = c05.loop_of(a, pushes[0])
-        okf = (v[0] == 'call' and sg(v[1]).endswith('Vec::len') and flow.mentions(v[2][0], lambda z: z[0] == 'field' and z[2] == 'shard_collections')
-               and lp is not None and lc[3] in lp[1] and not (a.cfg.reach_after([pushes[0]], cut_edges=[(x, lp[0]) for x in lp[1] if lp[0] in a.cfg.succ[x]]) & {lc[3]}))
-        # the push happens exactly when the recorded index equals that fresh count
-        eq = edges_where(a, lambda op, l, r: op == 'Eq' and ((a.rooted_at(l, ins[0]) and flow.eqv(r, v)) or (a.rooted_at(r, ins[0]) and flow.eqv(l, v))))
-        okf = okf and bool(eq) and a.cfg.must_pass(pushes[0], via_edges=eq)
+    if ent:
+        # entry().or_insert(len) form
+        ok = len(ent) == 1 and is_key(a.arg(ent[0], 1))
+        ctx.check(ok, 'R18b', a.path, 'collection key', a.loc(ent[0]) if ent else '-', 'a registered shard is filed under the collection of its footer\'s chunk_hash_hmac_key')
+        # the index recorded for a new key is the collection count read in the same iteration as the push that creates it
+        ins = [c for c in a.calls('std::collections::hash::map::Entry::or_insert') if ent and a.rooted_at(a.arg(c, 0), ent[0])]
+        okf = len(ins) == 1 and len(pushes) == 1
+        if okf:
+            v = a.arg(ins[0], 1)
+            lc = a.root_call(v)
+            lp = c05.loop_of(a, pushes[0])
+            okf = (v[0] == 'call' and sg(v[1]).endswith('Vec::len') and flow.mentions(v[2][0], lambda z: z[0] == 'field' and z[2] == 'shard_collections')
+                   and lp is not None and lc[3] in lp[1] and not (a.cfg.reach_after([pushes[0]], cut_edges=[(x, lp[0]) for x in lp[1] if lp[0] in a.cfg.succ[x]]) & {lc[3]}))
+            # the push happens exactly when the recorded index equals that fresh count
+            eq = edges_where(a, lambda op, l, r: op == 'Eq' and ((a.rooted_at(l, ins[0]) and flow.eqv(r, v)) or (a.rooted_at(r, ins[0]) and flow.eqv(l, v))))
+            okf = okf and bool(eq) and a.cfg.must_pass(pushes[0], via_edges=eq)
+    else:
+        # explicit form: `match map.get(&key) { Some(i) => i, None => { let i = collections.len(); map.insert(key, i); collections.push(..); i } }`
+        gets = [g for g in a.calls('std::collections::hash::map::HashMap::get') if is_cbk(a.arg(g, 0))]
+        inss = [i_ for i_ in a.calls('std::collections::hash::map::HashMap::insert') if is_cbk(a.arg(i_, 0))]
+        ok = len(gets) == 1 and is_key(a.arg(gets[0], 1)) and len(inss) == 1 and is_key(a.arg(inss[0], 1))
+        ctx.check(ok, 'R18b', a.path, 'collection key', a.loc(gets[0]) if gets else '-', 'a registered shard is filed under the collection of its footer\'s chunk_hash_hmac_key')
+        okf = ok and len(pushes) == 1
+        if okf:
+            none_e = a.none_edges(a.variant_edges(gets[0], 'core::option::Option<')) + a.none_edges(a.dest_variant_edges(gets[0]))
+            v = a.arg(inss[0], 2)
+            lc = a.root_call(v)
+            lp = c05.loop_of(a, pushes[0])
+            lat = [(x, lp[0]) for x in lp[1] if lp[0] in a.cfg.succ[x]] if lp else []
+            okf = (v[0] == 'call' and sg(v[1]).endswith('Vec::len') and flow.mentions(v[2][0], lambda z: z[0] == 'field' and z[2] == 'shard_collections')
+                   and lp is not None and lc[3] in lp[1] and not (a.cfg.reach_after([pushes[0]], cut_edges=lat) & {lc[3]})
+                   # insert and push happen exactly on the key-absent edge, and together
+                   and bool(none_e) and a.cfg.must_pass(inss[0], via_edges=none_e) and a.cfg.must_pass(pushes[0], via_edges=none_e)
+                   and c05.in_iteration_guarded(a, lp, pushes[0], a.cfg.out_edges(inss[0])))
+        ins = inss
     ctx.check(okf, 'R18b', a.path, 'fresh index', a.loc(ins[0]) if ins else '-',
               'the collection index recorded for an unseen key is shard_collections.len() read in the same loop iteration, and the collection is pushed exactly when the recorded index equals it',
               'the index recorded for a new key can be a stale collection count (read outside the loop that pushes collections): shards of later new keys are filed under another key\'s collection')
